@@ -402,6 +402,22 @@ pub fn compare(expected: &Value, out: &[Out], window: Option<(chrono::DateTime<c
 
 fn check_case(case: &Value, rec: &RecSpec, idx: usize) -> Option<Value> {
     let pattern = sub(case["input"].as_str().unwrap());
+    // a highlight group consults the record's level: every level must be safe (the comparison below is for the case's
+    // own record)
+    // (patterns with absurd widths are constructed only, never encoded)
+    let absurd = case["out"].as_array().map(|a| a.iter().any(|t| t == "<HUGE>")).unwrap_or(false);
+    if !absurd && (pattern.contains("{h") || pattern.contains("highlight")) {
+        for l in [log::Level::Error, log::Level::Warn, log::Level::Info, log::Level::Debug, log::Level::Trace] {
+            let r = catch(|| {
+                let enc = log4rs::encode::pattern::PatternEncoder::new(&pattern);
+                let mut cap = Cap::new(vec![]);
+                let _ = enc.encode(&mut cap, &log::Record::builder().level(l).target("t").args(format_args!("m")).build());
+            });
+            if let Err(p) = r {
+                return Some(json!({"what": "a pattern with a highlight group panicked for a record level", "level": l.to_string(), "error": p}));
+            }
+        }
+    }
     let exp = &case["out"];
     let toks: Vec<&str> = exp.as_array().unwrap().iter().map(|t| t.as_str().unwrap()).collect();
     let huge = toks.contains(&"<HUGE>");
@@ -490,6 +506,9 @@ fn check_width(idx: usize, case: &Value) -> Option<Value> {
         _ if chars.is_empty() && idx % 2 == 0 => (format!("{{{}(zz{{m}}", inactive), ")"),
         1 => ("{({m}".to_string(), ")"),
         2 => (format!("{{{}({{m}}", active), ")"),
+        // (every eighth case of the remaining kind: a group with an empty highlight group in front of the message - the
+        // style requests travel through the width writers, the text is the message's)
+        0 | 3 if idx % 8 == 5 => ("{({h()}{m}".to_string(), ")"),
         // the text as literal characters of the pattern inside a group (none of them is a syntax character)
         3 if !chars.is_empty() => (format!("{{({}", chars.iter().collect::<String>()), ")"),
         _ => ("{m".to_string(), ""),
